@@ -1,7 +1,8 @@
 package main
 
 func init() {
-	props["C01"] = &propImpl{files: []string{"h_lib.go", "h_c01.go", "h_step.go"}, run: runC01}
+	props["C01"] = &propImpl{files: []string{"h_lib.go", "h_c01.go", "h_step.go"}, run: runC01,
+		fallbackFiles: []string{"h_lib.go", "h_c01.go"}, hooks: []string{"internal/scanner", "internal/position", "pkg/token", "pkg/position"}, fallbackRun: runC01}
 }
 
 // lexical-mode prefixes (shape S2 of DESIGN.md)
